@@ -469,6 +469,7 @@ func checkC19(c *Ctx) {
 	storageFaults(c, "C19")
 	c19Unstorable(c)
 	c19DeleteCrash(c)
+	c19ReaddCrash(c)
 	c18ConcurrentSet(c) // two writers of one key (two storage objects on the directory): a reader — or a crash — sees whole values only
 	c18TempSpellings(c) // a key whose file is another key's temporary file is damaged by that key's writes, crash or not
 	c.SetRule("trace: one case = one real storage write (Set / SaveEntity / the three Sets of Config.save) on a seeded directory " +
@@ -721,4 +722,69 @@ func splitSegments(ops []fstrace.Op, want int) [][]fstrace.Op {
 		}
 	}
 	return segs
+}
+
+// c19ReaddCrash: a controller that is paired already is added again (POST /pairings, method add: its permissions or its key
+// change). The request is killed on entering each of its system calls. The pairing is there afterwards — with the previous
+// key or with the new one —, never gone: for the only admin controller "gone" means an unpaired, discoverable accessory.
+func c19ReaddCrash(c *Ctx) {
+	id := "readd-crash#0"
+	if c.Skip(id) {
+		return
+	}
+	probe := c19Probe(c)
+	root := c.ScratchDir()
+	r := c.CaseRng("readd-crash", 0)
+	name := "ctrl-admin"
+	key := hx([]byte(name)) + ".entity"
+	oldPub, newPub := randBytes(r, 32), randBytes(r, 32)
+	old, _ := json.Marshal(db.NewEntity(name, oldPub, nil))
+	n := 0
+	prepare := func() string {
+		n++
+		d := filepath.Join(root, fmt.Sprintf("ra%d", n), "store")
+		c19Populate(d, map[string][]byte{key: old, "other": []byte("bystander")})
+		return d
+	}
+	state := func(d string) string {
+		database, err := db.NewDatabase(d)
+		if err != nil {
+			return err.Error()
+		}
+		e, err := database.EntityWithName(name)
+		switch {
+		case err != nil:
+			return "the pairing is gone: " + err.Error()
+		case !bytes.Equal(e.PublicKey, oldPub) && !bytes.Equal(e.PublicKey, newPub):
+			return "the pairing has a key that is neither the previous nor the new one: " + hx(e.PublicKey)
+		}
+		return ""
+	}
+	argv := func(d string) []string { return []string{probe, "pairadd", d, hx([]byte(name)), hx(newPub)} }
+	d0 := prepare()
+	calls, _, runErr, err := fstrace.Record(root, d0, argv(d0), "")
+	if err != nil {
+		fatal("strace: %v", err)
+	}
+	in := map[string]interface{}{"operation": "PairingController.Handle(add) for a controller that is stored already", "system_calls": callDescr(calls)}
+	if msg := state(d0); runErr != nil || msg != "" {
+		c.Violate("a completed add of a pairing does not leave the pairing stored", id, in, "stored", fmt.Sprint(runErr, " ", msg))
+	}
+	os.RemoveAll(filepath.Dir(d0))
+	for j, call := range calls {
+		d := prepare()
+		_, _, kerr, err := fstrace.Record(root, d, argv(d), fmt.Sprintf("%s:signal=SIGKILL:when=%d", call.Name, call.Nth))
+		if err != nil {
+			fatal("strace: %v", err)
+		}
+		pin := map[string]interface{}{"operation": in["operation"], "system_calls": callDescr(calls), "killed_on_entering_system_call": j, "call": call.Descr}
+		if kerr == nil {
+			c.Mismatch("kill-injection", id, pin, "process killed at "+call.Descr, "process ran to completion")
+		} else if msg := state(d); msg != "" {
+			c.Violate("a crash while a stored pairing is added again loses the pairing", id, pin, "the pairing with its previous or its new key", msg)
+		}
+		os.RemoveAll(filepath.Dir(d))
+		c.Hist("kill:" + call.Name)
+	}
+	c.Count(id, true, "stream:readd-crash", fmt.Sprintf("readd-crash:syscalls=%d", len(calls)))
 }
